@@ -829,6 +829,71 @@ macro_rules! field_suite {
                     }
                 }
             }
+            /// C12: calls that both builds offer, chosen by name
+            pub fn equiv(out: &mut dyn Write, r: &mut ChaCha20Rng, n: usize) {
+                emit(out, json!({"k":"reset","build":BUILD}));
+                let un_names = ["-a", "F::neg(a)", "a.square()", "a.inverse()", "clone"];
+                let un_ix: Vec<usize> = un_names.iter().map(|nm| UN.iter().position(|f| f.1 == *nm).unwrap()).collect();
+                let ser_names = ["to_bytes_le", "to_bytes", "Debug hex"];
+                let ser_ix: Vec<usize> = ser_names.iter().map(|nm| SER.iter().position(|f| f.0 == *nm).unwrap()).collect();
+                let ctor_names = ["from_le_bytes_mod_order", "from_bytes_checked"];
+                let ctor_ix: Vec<usize> = ctor_names.iter().map(|nm| CTOR.iter().position(|f| f.0 == *nm).unwrap()).collect();
+                let parse_ix = PARSE.iter().position(|f| f.0 == "from_bytes_checked").unwrap();
+                let red_ix = REDUCE.iter().position(|f| f.0 == "from_le_bytes_mod_order").unwrap();
+                let m = $modulus.to_vec();
+                let mut pool: Vec<F> = (0..8).map(|_| operands(r)).collect();
+                for i in 0..n {
+                    if i % 200 == 199 {
+                        emit(out, json!({"k":"reset","build":BUILD}));
+                    }
+                    let a = pool[below(r, 8)];
+                    let bb = if below(r, 8) == 0 { a } else { pool[below(r, 8)] };
+                    let slot = below(r, 8);
+                    match below(r, 100) {
+                        0..=44 => {
+                            if let Some(x) = emit_bin(out, i, a, bb) {
+                                pool[slot] = x;
+                            }
+                        }
+                        45..=56 => {
+                            if let Some(x) = emit_un(out, un_ix[i % un_ix.len()], a) {
+                                pool[slot] = x;
+                            }
+                        }
+                        57..=60 => {
+                            let k = below(r, 6);
+                            let xs: Vec<F> = (0..k).map(|_| pool[below(r, 8)]).collect();
+                            emit_fold(out, i, &xs);
+                        }
+                        61..=64 => emit_eq(out, i, a, bb),
+                        65..=68 => emit_from(out, r),
+                        69..=76 => {
+                            let mut v = rand_operand_bytes(r, &m);
+                            v.truncate(N8);
+                            v.resize(N8, 0);
+                            while !le_less(&v, &m) {
+                                v = le_sub(&v, &m);
+                            }
+                            emit_ser(out, ctor_ix[i % 2], ser_ix[i % 3], &v);
+                        }
+                        77..=82 => {
+                            let mut v = rbytes(r, N8);
+                            if below(r, 2) == 0 {
+                                v[N8 - 1] &= 0x0f;
+                            }
+                            emit_parse(out, parse_ix, &v);
+                        }
+                        83..=90 => {
+                            let len = below(r, 201);
+                            let v = rbytes(r, len);
+                            emit_reduce(out, red_ix, &v);
+                        }
+                        91..=94 => emit_cmp(out, a, bb),
+                        95..=96 => emit_hash(out, a),
+                        _ => pool[slot] = operands(r),
+                    }
+                }
+            }
             pub fn sqrt(out: &mut dyn Write, r: &mut ChaCha20Rng, n: usize) {
                 emit(out, json!({"k":"reset","build":BUILD}));
                 let al: Vec<F> = operand_alphabet(&$modulus).iter().map(|x| of(x)).collect();
@@ -919,6 +984,9 @@ pub fn record(suite: &str, n: usize, seed: u64, arg: &str, out: &mut dyn Write) 
         "fsqrt_Fr" => fr::sqrt(out, &mut r, n),
         "fsqrt_Fp" => fp::sqrt(out, &mut r, n),
         "fqextra" => fq_extra(out, &mut r, n),
+        "fequiv_Fq" => fq::equiv(out, &mut r, n),
+        "fequiv_Fr" => fr::equiv(out, &mut r, n),
+        "fequiv_Fp" => fp::equiv(out, &mut r, n),
         _ => return false,
     }
     true
